@@ -94,6 +94,24 @@ fn hll_coupon_case(ctx: &Ctx, lg_k: u8, tgt: u8, set_mode: bool, coupons: &[u32]
                 bad.push((format!("{tag}.continuation"), format!("after one more coupon {c:#x}: {}", errs.first().map(|e| e.1.clone()).unwrap_or_else(|| format!("estimate {} vs in-process {}", b.estimate(), a.estimate())))));
             }
         }
+        // every stored coupon offered again is found where the foreign writer put it: nothing changes
+        {
+            let mut b = d.clone();
+            let mut dead = false;
+            for &c in coupons {
+                if let Err(p) = catch(|| b.verif_update_with_coupon(c)) {
+                    bad.push((format!("panic|{}", p.site_key()), format!("re-offering a stored coupon panicked: {}", p.message)));
+                    dead = true;
+                    break;
+                }
+            }
+            if !dead {
+                let errs = hllm::check_state(&b.verif_state(), &r, lg_k);
+                if !errs.is_empty() || hllm::obs_est(&b) != hllm::obs_est(&d) {
+                    bad.push((format!("{tag}.reoffer"), format!("after re-offering the {} stored coupons: {}", coupons.len(), errs.first().map(|e| e.1.clone()).unwrap_or_else(|| format!("estimate {} -> {}", d.estimate(), b.estimate())))));
+                }
+            }
+        }
         // long drive: through every promotion still ahead (list -> set -> array, set growth),
         // full oracle at the end
         if lg_k <= 12 {
@@ -286,6 +304,27 @@ fn hll_array_case(ctx: &Ctx, lg_k: u8, tgt: u8, regs: &[u8], cur_min: u8, o: Enc
         vio(ctx, &k, &w, &variant, &img);
     }
     1
+}
+
+/// Foreign SET tables large enough that the probe stride depends on more than the slot bits
+/// (2^14 slots and more: lg_k >= 17), updatable and compact, three fill levels.
+fn hll_big_sets(ctx: &Ctx) -> u64 {
+    let cfgs: Vec<(u8, u8)> = ctx.tier.pick(vec![(17u8, 14u8), (19, 15)], vec![(17, 14), (18, 14), (18, 15), (19, 15), (19, 16), (21, 17), (21, 18)]);
+    let jobs: Vec<(u8, u8, u8)> = cfgs.iter().flat_map(|&(l, a)| [4u8, 6, 8].into_iter().map(move |t| (l, a, t))).collect();
+    jobs.par_iter()
+        .map(|&(lg_k, lg_arr, tgt)| {
+            let mut n = 0;
+            let full = 3u32 << (lg_arr - 2);
+            for cnt in [full / 2 + 1, full - 1] {
+                // slots chosen to collide in the low bits (same home slot), values spread over 1..=60
+                let cs: Vec<u32> = (0..cnt).map(|i| coupon((i % 4096) | ((i / 4096) << 20) | ((i % 7) << 14), 1 + (i % 60) as u8)).collect::<BTreeSet<u32>>().into_iter().collect();
+                for compact in [false, true] {
+                    n += hll_coupon_case(ctx, lg_k, tgt, true, &cs, EncOpts { compact, ooo: false, lg_arr, extra_flags: 0 });
+                }
+            }
+            n
+        })
+        .sum()
 }
 
 fn hll_all(ctx: &Ctx) -> u64 {
@@ -723,7 +762,7 @@ fn misc_all(ctx: &Ctx) -> u64 {
 }
 
 pub fn run(ctx: &Ctx) -> i32 {
-    let a = hll_all(ctx);
+    let a = hll_all(ctx) + hll_big_sets(ctx);
     ctx.count("HLL image variants", a);
     let b = theta_all(ctx);
     ctx.count("Theta image variants (incl. wrong-seed rejections)", b);
